@@ -645,6 +645,10 @@ def _resolve(t, d):
         return t
     if t[0] == "agg":
         return t[:4] + (tuple(_resolve(x, d) for x in t[4]),) + t[5:]
+    if t[0] == "field" and isinstance(t[1], tuple):
+        return (t[0], _resolve(t[1], d)) + tuple(t[2:])
+    if t[0] == "as" and isinstance(t[1], tuple):
+        return (t[0], _resolve(t[1], d)) + tuple(t[2:])
     return t
 
 
@@ -667,7 +671,38 @@ def gl8(prog):
         fg, cg = d["get"]
         errs = []
         for disc, vname in ((0, "IteChoice"), (1, "IteComplChoice")):
-            ki, kg = _resolve(ci.args[1], disc), _resolve(cg.args[1], disc)
+            from . import canon as _c
+
+            def nk(t_):
+                # a key computed by a helper of the triple (`ite.cache_key()`): its body, then the variant's arm, then the
+                # projections of literal tuples / Some{..}
+                try:
+                    t_ = _c.inline_local(prog, t_, lambda h: "{closure" not in h.npath)
+                except Exception:
+                    pass
+                t_ = _resolve(t_, disc)
+                try:
+                    t_ = _c.assume_variant(fi.terms, t_, ("param", 2), vname)
+                except Exception:
+                    pass
+                t_ = _resolve(t_, disc)
+
+                def red(x):
+                    if not isinstance(x, tuple) or not x:
+                        return x
+                    if x[0] == "call":
+                        return (x[0], x[1], tuple(red(a) for a in x[2])) + tuple(x[3:])
+                    x = tuple(red(a) if isinstance(a, tuple) else a for a in x)
+                    if x[0] == "field" and isinstance(x[1], tuple) and x[1] and x[1][0] == "as" and x[2] == "0":
+                        inner = strip(x[1][1])
+                        if isinstance(inner, tuple) and inner and inner[0] == "agg" and inner[3] == x[1][2] and len(inner[4]) == 1:
+                            return inner[4][0]       # the payload of a literal Some{..}
+                    if x[0] == "field" and isinstance(x[1], tuple) and x[1] and strip(x[1])[0] == "agg" and strip(x[1])[1] in ("tuple", "array") \
+                            and str(x[2]).isdigit() and int(x[2]) < len(strip(x[1])[4]):
+                        return strip(x[1])[4][int(x[2])]
+                    return x
+                return strip(red(t_))
+            ki, kg = nk(ci.args[1]), nk(cg.args[1])
             if ki != kg:
                 errs.append("for %s a result is stored under %s but looked up under %s" % (vname, show(ki)[:90], show(kg)[:90]))
         out.append(inst("GL", "%s:GL8:store-key=lookup-key" % adt, VIOLATION if errs else OK, fi, ci.line,
@@ -711,6 +746,21 @@ def gl9(prog):
                 for x in mir.subterms(a):
                     if x[0] == "param":
                         inkey.add(x[1])
+            one_entry = not keyargs
+            if one_entry:
+                # a one-entry memo in a cell (`last_hit.get()`): its key is whatever the remembered request is compared with
+                # before the hit is returned — the parameters in the conditions that mention the cell's content
+                for b_, (c_, _) in te.switch_term.items():
+                    if me in show(c_):
+                        for x in mir.subterms(c_):
+                            if x[0] == "param" and x[1] != 1:
+                                inkey.add(x[1])
+                for c2 in te.calls:
+                    if c2.callee.name in ("eq", "ne") and any(me in show(a) for a in c2.args):
+                        for a in c2.args:
+                            for x in mir.subterms(a):
+                                if x[0] == "param" and x[1] != 1:
+                                    inkey.add(x[1])
             # parameters the function uses anywhere else
             used = set()
             for c2 in te.calls:
@@ -726,7 +776,13 @@ def gl9(prog):
                         used.add(x[1])
             missing = sorted(p for p in used if p != 1 and p not in inkey)
             names = [f.arg_name(p) or ("arg%d" % p) for p in missing]
-            out.append(inst("GL", "%s:GL9:memo-key-complete" % f.npath, VIOLATION if missing else OK, f, cs.line,
+            if one_entry and missing:
+                # which of the parameters the remembered answer really depends on (a hash is a function of the key) is not
+                # decided here; the complement flag of the ITE tables is CP's business
+                out.append(inst("GL", "%s:GL9:memo-key-complete#cell" % f.npath, UNDECIDED, f, cs.line,
+                                "?a one-entry memo compared with %s only" % sorted(inkey)))
+                continue
+            out.append(inst("GL", "%s:GL9:memo-key-complete%s" % (f.npath, "#cell" if one_entry else ""), VIOLATION if missing else OK, f, cs.line,
                             ("a hit of the persistent memo %s is returned, but its key (%s) does not contain the parameter(s) %s "
                              "that the function's result depends on: a later call with another value gets the stale result"
                              % (show(recv)[:40], ", ".join(show(a)[:40] for a in keyargs), names)) if missing else
